@@ -52,6 +52,13 @@ def gen_C07(rng, tier):
         (None, "parcelable x.y.Foo;", "y.Foo"),
         (None, "parcelable x.y.Foo;parcelable Foo;", "Foo"),
     ]
+    # an argument named like an earlier one of the same method is still an argument: every category x direction once more
+    for cname, src in ALL17.items():
+        for d in ["", "in ", "out ", "inout "]:
+            for mow, iow in [(False, False), (True, False), (False, True)]:
+                body = f"{'oneway ' if mow else ''}void f(in int[] x,{d}{src} x);"
+                cases.append(nm(f"dup{k}", project(HEAD + f"{'oneway ' if iow else ''}interface I{{{body}}}")))
+                k += 1
     for j, (defn, pre, ty) in enumerate(shadow):
         for iow in (False, True):
             body = "".join(f"void m{k}({d}{ty} x);" for k, d in enumerate(["", "in ", "out ", "inout "]))
@@ -196,6 +203,8 @@ def gen_projects(rng, tier, n_quick=1500, n_thorough=20000):
                "android.os.ParcelFileDescriptor f;java.os.FileDescriptor g;XIBinder h;}")],
         [("a", "package p;parcelable Foo;parcelable q.Bar;parcelable Foo;parcelable P{Foo a;Bar b;q.Bar c;}")],
         [("a", "package p;import q.Foo;parcelable Foo;parcelable P{Foo a;}")],
+        [("a", 'package p;@Backing(type="") enum E{A=1,B}'), ("b", 'package p;@Backing(type="int") enum F{A}'),
+         ("c", 'package p;@Backing() enum G{A}'), ("d", 'package p;@Backing(type="byte") @Backing(type="") enum H{A}')],
         [("a", "package p;import q.Foo;import r.Foo;parcelable Foo;parcelable P{int a;}")],
         [("a", "package p;import q.Foo;parcelable P{Map<String,List<Foo[]>> a;}"), ("b", "package q;interface Foo{}")],
         [("a", "package p;import p.I;interface J{void f(in I x);}"), ("b", "package p;interface I{}"), ("c", "package p;parcelable I{}")],
